@@ -528,7 +528,9 @@ Step(ev) ==
                      THEN {V(ev, {"C12"}, "dual bound of the optimal basis differs from the optimal value")} ELSE {})
                     \cup (IF solHere /\ ev.rval # 0
                      THEN {V(ev, {"C12"}, "verdict function failed on a non-singular basis")} ELSE {})
-                    \cup (IF solHere /\ ev.rval = 0 /\ (ev.result = 1) # want /\ ~preOK
+                    \* (with the pre-solve step QSexact_verify speaks about the basis the warm-started solve ENDS in, which the trace does not show:
+                    \*  only a positive answer can be checked then - it must carry a valid dual bound, preOK)
+                    \cup (IF solHere /\ ev.rval = 0 /\ (ev.result = 1) # want /\ ~preOK /\ ~(pre /\ ev.result = 0)
                      THEN {V(ev, {"C12"}, c \o " answers " \o ToString(ev.result) \o " but the exact basic solution is " \o (IF pf THEN "primal feasible" ELSE "primal infeasible") \o " / " \o (IF df THEN "dual feasible" ELSE "dual infeasible"))} ELSE {})
                     \cup (IF solHere /\ c # "basis_optimalstatus" /\ ev.rval = 0 /\ ev.result = 1 /\ df /\ ev.dobjval # dobjTrue /\ ~preOK
                      THEN {V(ev, {"C12"}, "reported dual bound " \o ev.dobjval \o " is not the dual objective of the basis " \o dobjTrue)} ELSE {}))
